@@ -116,7 +116,9 @@ def build_universe(seed, tier):
         if isinstance(t, Adt) and t.d.name in ('KZ9', 'KD6'):
             t.known = ('C01', 'C02', 'C03', 'C04', 'C06', 'C07', 'C14', 'C18')     # alignment 128: beyond what the loaders support
     st += [Seq('vec', Adt(byname['KZ10'], [], [])), Adt(byname['KD5'], [Seq('vec', Adt(byname['KZ10'], [], []))], [])]
-    u.slice_elems = list(u.slice_elems) + [Adt(byname['KZ10'], [], []), Adt(byname['KZE2'], [], []), Adt(byname['KZ8'], [], [])]
+    st += [Seq('vec', Adt(byname['KZU'], [], [])), Array(Adt(byname['KZU'], [], []), 3), Seq('bs', Adt(byname['KZV'], [], [])),
+           Adt(byname['KD5'], [Seq('vec', Adt(byname['KZV'], [], []))], [])]
+    u.slice_elems = list(u.slice_elems) + [Adt(byname['KZU'], [], []), Adt(byname['KZV'], [], []), Adt(byname['KZ10'], [], []), Adt(byname['KZE2'], [], []), Adt(byname['KZ8'], [], [])]
     u.corpus_start = len(u.types)
     u.corpus_rust = [t.rust() for t in c.types] + [t.rust() for t in st]
     seen = set(t.rust() for t in u.types)
